@@ -2,14 +2,18 @@
 Property C12 — low-index enumeration lists each conjugacy class of subgroups once.
 Property theorems only.
 
-What is proved: the traversal.  `coset_tables` is the generic `BackTrackIterator` over
-`CosetTableBacktracking`; its model yields exactly `extract s` for the states `s` reachable
-from the empty table through `children` (= canonical derived tables), each once, in
-depth-first preorder — for every presentation and every index bound, with an explicit
-height function (free slots among the first `max_rows` rows), so the enumeration terminates.
-That each yielded table is valid, that the canonical pruning loses no class and keeps no
-class twice is established per input by the Spec (brute-force census of all transitive
-permutation representations), not proved (conf/C12.json, open_obligations).
+What is proved, for the hand-written model of `coset_tables` and relators that are empty or
+cyclically reduced: the whole property.  The model yields, in depth-first preorder, the
+extracted tables of the search states reachable through `children` (traversal, termination by
+an explicit height function); it never panics or exhausts internal fuel
+(`search_never_panics`); every yielded table is valid (`extract_valid`); no two yielded
+tables are isomorphic (`coset_tables_irredundant`: `compare_renumbered_from` is the
+lexicographic comparison with a re-based renumbering, two canonical standard isomorphic
+tables are equal); every valid table with at most `k` rows is isomorphic to a yielded one
+(`coset_tables_complete`: the re-basing with the smallest key passes `is_canonical`, the
+search follows it slot by slot, and no state inside it is pruned — `pruning_sound`).
+`coset_tables_complete_irredundant` combines the three.  The tie model ↔ Rust code is the
+differential correspondence of the check (conf/C12.json).
 -/
 import DSymVerif.Proofs.Backtrack
 import DSymVerif.Proofs.LowIndex
@@ -17,6 +21,7 @@ import DSymVerif.Proofs.LowIndexSound
 import DSymVerif.Proofs.Rebase
 import DSymVerif.Proofs.LowIndexValid
 import DSymVerif.Proofs.LowIndexCanon6
+import DSymVerif.Proofs.LowIndexMain
 
 namespace DSymVerif.C12
 open DSymVerif DSymVerif.Cosets DSymVerif.LowIndexP DSymVerif.SpecC11 DSymVerif.SpecC12 DSymVerif.RebaseP DSymVerif.CosetInvP DSymVerif.CanonP
@@ -185,6 +190,80 @@ theorem coset_tables_irredundant (n : Nat) (rels : List (List Int)) (k fuel : Na
     (cosetTables n rels k fuel).Pairwise
       (fun x y => ∀ t1 t2, x = .ok t1 → y = .ok t2 → ¬ TIso n t1 t2) :=
   cosetTables_irredundant n rels k fuel hcr hlet hf
+
+/-- ✔ the model of `coset_tables` never panics and never exhausts the internal fuel of
+    `derived_table`/`merge`/`find`: every yielded item is a table; it is complete and its
+    `view` is the Spec table of its entries -/
+theorem search_never_panics (n : Nat) (rels : List (List Int)) (k fuel : Nat)
+    (hcr : ∀ ρ ∈ rels, ρ = [] ∨ FWP.CR ρ) (hlet : ∀ w ∈ rels, ∀ x ∈ w, x ∈ allGensOf n)
+    (hf : (BT.dfs (btProblem n (expandedRelatorSet rels) k) (height k) (.ok (Table.new n))).length ≤ fuel) :
+    ∀ x ∈ cosetTables n rels k fuel, ∃ t' v, x = .ok t' ∧ t'.view = .ok v ∧
+      (viewTab v).size = t'.len ∧
+      ∀ j, j < t'.len → ∀ g ∈ allGensOf n, ∃ d, t'.get j g = .ok (some d) ∧ entry (viewTab v) n j g = some d :=
+  cosetTables_ok n rels k fuel hcr hlet hf
+
+/-- ✔ re-basing (Spec side): from every base point `b` of a valid table the BFS renumbering
+    succeeds, is isomorphic to the table with new row 0 = `b`, and is in standard form
+    (`StdTab`: every row `j ≥ 1` has a creation slot in an earlier row before which, in row-major
+    order, every slot leads to a row `< j`) -/
+theorem rebase_standard (t : Tab) (n : Nat) (rels : List (List Int))
+    (h : validTable t n rels [] = true) (b : Nat) (hb : b < t.size) :
+    ∃ u ord o2n, renumberFrom t n b = some u ∧ Renum t n b u ord o2n ∧ ord.getD 0 0 = b ∧ StdTab u n :=
+  renumberFrom_std (CosetP.valid_of_validTable h) b hb
+
+/-- ✔ the re-basing with the smallest key passes `is_canonical`: if `u` is a re-basing of a
+    valid table and no re-basing of `u` has a lexicographically smaller key, the model table
+    of `u` is accepted — every `compare_renumbered_from(u, s)` is the first difference of the
+    re-basing from `s` against `u` (`renumbered_compare_spec`), which is not negative -/
+theorem min_rebasing_canonical (n : Nat) (rels : List (List Int)) (t u : Tab) (b : Nat)
+    (ord o2n : Array Nat) (ht : validTable t n rels [] = true) (r : Renum t n b u ord o2n)
+    (hstd : StdTab u n) (hmin : ∀ x ∈ rebasings u n, lexLt x (tabKey u) = false) :
+    isCanonical (Table.ofView n u) = .ok true :=
+  ofView_canonical (valid_iso_std r.iso_fwd (CosetP.valid_of_validTable ht) hstd) hstd
+    (CosetP.valid_of_validTable ht) r hmin
+
+/-- ✔ **the path**: a complete, standard table `T` that passes `is_canonical`, closes every
+    expanded relator at every row and has at most `k` rows is reached by the search and
+    yielded entry for entry: a state all of whose entries are entries of `T` has, unless it
+    is complete, a child with the same property that survives the canonicity filter
+    (deductions inside `T` agree with `T`, a relator cannot close on two rows) -/
+theorem canonical_target_found (maxRows n : Nat) (rels R : List (List Int)) (hrot : RotClosed rels R)
+    (hwr : ∀ w ∈ rels, ∀ x ∈ w, x ∈ allGensOf n) (hwR : ∀ u ∈ R, ∀ x ∈ u, x ∈ allGensOf n)
+    (T : Table) (tg : Target maxRows n R T) :
+    ∃ Q t', BT.Reach (btProblem n R maxRows) (.ok (Table.new n)) (.ok Q) ∧
+      btExtract (.ok Q) = some (.ok t') ∧ t'.len = T.len ∧ t'.nrGens = n ∧
+      ∀ k g d, k < T.len → g ∈ allGensOf n → T.get k g = .ok (some d) → t'.get k g = .ok (some d) :=
+  target_found hrot hwr hwR tg
+
+/-- ✔ **completeness**: for relators that are empty or cyclically reduced, every valid table
+    (complete, inverse-consistent, closing every relator at every row, transitive — a
+    transitive action of the presented group with a base point) with at most `k` rows is
+    isomorphic to the view of one of the tables yielded by the model of `coset_tables`: no
+    conjugacy class of subgroups of index ≤ `k` is missed -/
+theorem coset_tables_complete (n : Nat) (rels : List (List Int)) (k fuel : Nat)
+    (hcr : ∀ ρ ∈ rels, ρ = [] ∨ FWP.CR ρ) (hlet : ∀ w ∈ rels, ∀ x ∈ w, x ∈ allGensOf n)
+    (hf : (BT.dfs (btProblem n (expandedRelatorSet rels) k) (height k) (.ok (Table.new n))).length ≤ fuel)
+    (A : Tab) (hA : validTable A n rels [] = true) (hk : A.size ≤ k) :
+    ∃ t' v σ, (Outcome.ok t') ∈ cosetTables n rels k fuel ∧ t'.view = .ok v ∧ TabIso A (viewTab v) n σ :=
+  cosetTables_complete n rels k fuel hcr hlet hf A hA hk
+
+/-- ✔ **C12 for the model** (`coset_tables_complete_irredundant`): the views of the tables
+    yielded by the model of `coset_tables(n, rels, k)` are a system of representatives of the
+    isomorphism classes of valid tables with at most `k` rows — every item is a valid table
+    with at most `max k 1` rows, no two items at different positions are isomorphic, and every
+    valid table with at most `k` rows is isomorphic to an item.  (Isomorphism classes of valid
+    tables with `j` rows = conjugacy classes of subgroups of index `j`: C11 `validTable_action`
+    gives the stabiliser of row 0, of index `j`.) -/
+theorem coset_tables_complete_irredundant (n : Nat) (rels : List (List Int)) (k fuel : Nat)
+    (hcr : ∀ ρ ∈ rels, ρ = [] ∨ FWP.CR ρ) (hlet : ∀ w ∈ rels, ∀ x ∈ w, x ∈ allGensOf n)
+    (hf : (BT.dfs (btProblem n (expandedRelatorSet rels) k) (height k) (.ok (Table.new n))).length ≤ fuel) :
+    (∀ x ∈ cosetTables n rels k fuel, ∃ t' v, x = .ok t' ∧ t'.view = .ok v ∧
+      validTable (viewTab v) n rels [] = true ∧ (viewTab v).size ≤ max k 1) ∧
+    (cosetTables n rels k fuel).Pairwise (fun x y => ∀ t1 t2 v1 v2, x = .ok t1 → y = .ok t2 →
+      t1.view = .ok v1 → t2.view = .ok v2 → ¬ ∃ σ, TabIso (viewTab v1) (viewTab v2) n σ) ∧
+    (∀ A : Tab, validTable A n rels [] = true → A.size ≤ k →
+      ∃ t' v σ, (Outcome.ok t') ∈ cosetTables n rels k fuel ∧ t'.view = .ok v ∧ TabIso A (viewTab v) n σ) :=
+  cosetTables_complete_irredundant n rels k fuel hcr hlet hf
 
 /-- ○ `rebase_min_invariant`: the Spec's `canonicalForm` (minimum over all base points of
     the BFS-renumbered table) is a complete invariant of a table up to isomorphism
